@@ -941,8 +941,7 @@ impl XmlCData {
     }
 
     pub fn insert(&mut self, offset: usize, data: &str) -> error::Result<()> {
-        self.data = insert_char_at(self.data.as_str(), offset, data, Self::check)?;
-        Ok(())
+        self.replace(offset, 0, data)
     }
 
     pub fn is_empty(&self) -> bool {
@@ -1177,8 +1176,7 @@ impl XmlComment {
     }
 
     pub fn insert(&mut self, offset: usize, comment: &str) -> error::Result<()> {
-        self.comment = insert_char_at(self.comment.as_str(), offset, comment, Self::check)?;
-        Ok(())
+        self.replace(offset, 0, comment)
     }
 
     pub fn is_empty(&self) -> bool {
@@ -3611,8 +3609,7 @@ impl XmlText {
     }
 
     pub fn insert(&mut self, offset: usize, text: &str) -> error::Result<()> {
-        self.text = insert_char_at(self.text.as_str(), offset, text, Self::check)?;
-        Ok(())
+        self.replace(offset, 0, text)
     }
 
     pub fn is_empty(&self) -> bool {
@@ -4386,31 +4383,6 @@ fn external_id(id: &parser::ExternalId) -> (String, Option<String>) {
     match id {
         parser::ExternalId::Public(p, s) => (s.to_string(), Some(p.to_string())),
         parser::ExternalId::System(s) => (s.to_string(), None),
-    }
-}
-
-fn insert_char_at<F>(value: &str, offset: usize, new: &str, check: F) -> error::Result<String>
-where
-    F: Fn(&str) -> error::Result<bool>,
-{
-    let mut chars = value.chars().collect::<Vec<char>>();
-
-    let index = if offset < chars.len() {
-        offset
-    } else {
-        chars.len()
-    };
-
-    if check(new)? {
-        let mut tail = chars.split_off(index);
-        let mut middle = new.chars().collect::<Vec<char>>();
-
-        chars.append(&mut middle);
-        chars.append(&mut tail);
-
-        Ok(chars.iter().collect())
-    } else {
-        Err(error::Error::InvalidData(new.to_string()))
     }
 }
 
